@@ -223,7 +223,8 @@ func c13Worker(w *W) {
 	var rotDone atomic.Int64
 	var stallArmed atomic.Bool
 	var burstLoads atomic.Int64
-	var restarts atomic.Int64
+	var restarts, exact64k, looks atomic.Int64
+	var lookFailed atomic.Bool
 	var seqFrom atomic.Value // time.Time from which only writer 0 keeps writing (one write at a time)
 	log.VerifPointFn = func(name string) {
 		y.fn(name)
@@ -421,8 +422,11 @@ func c13Worker(w *W) {
 						body = r.IntN(100)
 					case x < 95:
 						body = 500 + r.IntN(4000)
-					default:
+					case x < 97:
 						body = 30000 + r.IntN(35000)
+					default:
+						// a line of EXACTLY 64 KiB (the upper end of the stated sizes), or one byte less / more
+						body = 65536 - len(id) - 7 + []int{0, 0, -1, 1}[r.IntN(4)]
 					}
 					buf = append(buf[:0], fmt.Sprintf("%s|%d|", id, body)...)
 					for b := 0; b < body; b++ {
@@ -434,6 +438,18 @@ func c13Worker(w *W) {
 					ap.Write(buf)
 					rc.end = time.Now()
 					apMu.RUnlock()
+					if len(buf) == 65536 {
+						exact64k.Add(1)
+					}
+					if mode == "seqsteady" && !lookFailed.Load() {
+						// one writer, nothing else going on: when Write has returned the line is in a file of the directory
+						// (not in a buffer of the appender) - also while the writer then idles, and right after a boundary
+						if !c13lineVisible(dir, id) {
+							lookFailed.Store(true)
+							w.Violate("C13:write-in-no-file-at-return", fmt.Sprintf("single sequential writer: Write of %s (%d bytes) has returned and the line is in no file of the directory (it may turn up later: the statement is about where a write LANDS, and a write that has returned has landed)", id, len(buf)), cs)
+						}
+						looks.Add(1)
+					}
 					mu.Lock()
 					recs = append(recs, rc)
 					mu.Unlock()
@@ -604,6 +620,8 @@ func c13Worker(w *W) {
 	w.Count("writers_held_across_boundary", holds.Load())
 	w.Count("records_landed_in_previous_file", int64(inPrev))
 	w.Count("stop_start_cycles", int64(cycles))
+	w.Count("lines_of_exactly_64KiB", exact64k.Load())
+	w.Count("looks_into_the_directory_right_after_a_write_returned", looks.Load())
 	w.Count("idle_incarnations_on_an_existing_file", int64(idleIncarnations))
 	w.Count("rotations_won", y.counts()["roll.rotate.cas"])
 	w.Count("rotation_attempts", y.counts()["roll.rotate.checked"])
@@ -705,4 +723,38 @@ func init() {
 			d.raceVerdict(outs)
 		},
 	})
+}
+
+// c13lineVisible: is the line with this id in one of the (newest three) files of the directory right now?
+func c13lineVisible(dir, id string) bool {
+	ents, err := os.ReadDir(dir)
+	if err != nil {
+		return true // not decidable: say nothing
+	}
+	var names []string
+	for _, e := range ents {
+		if !e.IsDir() {
+			names = append(names, e.Name())
+		}
+	}
+	sort.Strings(names)
+	needle := []byte(id + "|")
+	for k := len(names) - 1; k >= 0 && k >= len(names)-3; k-- {
+		f, err := os.Open(filepath.Join(dir, names[k]))
+		if err != nil {
+			continue
+		}
+		st, _ := f.Stat()
+		off := int64(0)
+		if st != nil && st.Size() > 200<<10 {
+			off = st.Size() - 200<<10
+		}
+		b := make([]byte, 200<<10)
+		n, _ := f.ReadAt(b, off)
+		f.Close()
+		if bytes.Contains(b[:n], needle) {
+			return true
+		}
+	}
+	return false
 }
